@@ -2,7 +2,8 @@
    Executable definitions only; lemmas are in PyLinesProofs.v.
    The two character classes come from Gen/C08Unicode.v (regenerated from the interpreter). *)
 From Coq Require Import List NArith Bool.
-From MV Require Import Base.PyStr Gen.C08Unicode.
+From MV Require Import Base.PyStr.
+From MV Require Import Gen.C08Unicode.
 Import ListNotations.
 Open Scope N_scope.
 
